@@ -309,27 +309,28 @@ def holAfter (hol : Nat → Option Int) : Option LoopEnd → Nat → Option Int
 /-- put the result of a piece of the loops back into the configuration: the credits, `head_of_line` -/
 def finA (a : A) (L : LS) (oe : Option LoopEnd) : A := { a with dfc := L.dfc, hol := holAfter a.hol oe }
 
-/-- the result of the loops as the result of the burst -/
-def finish (a : A) (r : LS × LoopEnd) : BurstRes := { a := finA a r.1 (some r.2), evs := r.1.evs, fin := r.2 }
+/-- the result of the loops as the result of the burst (`e0` = what the burst lets observe before it enters the loops) -/
+def finish (a : A) (e0 : List (HEv ℚ)) (r : LS × LoopEnd) : BurstRes :=
+  { a := finA a r.1 (some r.2), evs := e0 ++ r.1.evs, fin := r.2 }
 
 /-- **what a burst of `DRR.run` does to a configuration** (`ws` = `class_count.items()`, `P` = the passes allowed, `t` = now) -/
 def A.burst (F : Nat) (Q : Nat → ℚ) (size : Int → Nat) (ws : List (Nat × Nat)) (P : Nat) (t : ℚ) (a : A) : Entry → BurstRes
-  | .top => finish a (passes Q size a.ccnt a.hol t (a.total F) ws P ⟨a.dfc, []⟩)
+  | .top => finish a [] (passes Q size a.ccnt a.hol t (a.total F) ws P ⟨a.dfc, []⟩)
   | .got m id =>
     match ws.drop m with
     | (c, _) :: rest =>
       if (Num.ofNat (size id) : ℚ) ≤ a.dfc c then { a := a, evs := [], fin := .send m c id false }
       else
         let a1 : A := { a with hol := upd a.hol c (some id) }
-        finish a1 (thenPasses Q size a1.ccnt a1.hol t (a1.total F) ws P
-          (visitFrom Q size a1.ccnt a1.hol t (m + 1) rest ⟨a1.dfc, [.park id t]⟩))
+        finish a1 [.park id t] (thenPasses Q size a1.ccnt a1.hol t (a1.total F) ws P
+          (visitFrom Q size a1.ccnt a1.hol t (m + 1) rest ⟨a1.dfc, []⟩))
     | [] => { a := a, evs := [], fin := .hang }
   | .done m id =>
     match ws.drop m with
     | (c, _) :: rest =>
       let a1 := a.book size c id
-      finish a1 (thenPasses Q size a1.ccnt a1.hol t (a1.total F) ws P
-        (match innerAt size a1.ccnt a1.hol t m c ⟨a1.dfc, bookEvs a c id t⟩ with
+      finish a1 (bookEvs a c id t) (thenPasses Q size a1.ccnt a1.hol t (a1.total F) ws P
+        (match innerAt size a1.ccnt a1.hol t m c ⟨a1.dfc, []⟩ with
           | (L', some e) => (L', some e)
           | (L', none) => visitFrom Q size a1.ccnt a1.hol t (m + 1) rest L'))
     | [] => { a := a, evs := [], fin := .hang }
